@@ -212,7 +212,7 @@ pub const PROFILES: &[Profile] = &[
     },
     Profile {
         name: "C11",
-        weights: &[(Raw, 24), (Convert, 14), (Swap, 6), (Thin, 6), (Union, 6), (Clone, 10), (Inspect, 10), (Move, 4), (Drop, 10), (CreateSized, 10), (CreateSlice, 6), (CreateThin, 4), (CreateStr, 2), (Cow, 5), (Uniq, 3)],
+        weights: &[(Raw, 24), (Convert, 14), (Swap, 6), (Thin, 6), (Union, 6), (Clone, 10), (Inspect, 10), (Move, 4), (Drop, 10), (CreateSized, 10), (CreateSlice, 6), (CreateThin, 4), (CreateStr, 2), (Cow, 5), (Uniq, 3), (Cmp, 6)],
         threads: &[(1, 100)],
         setup_ops: (5, 32),
         par_ops: (0, 0),
